@@ -110,11 +110,11 @@ CHECKS = {
         "_merge_single_markers, the python_version special cases) and proved to keep the truth table of and/or for every environment, "
         "fuel and guard state on every class of clauses meeting three premises (exact same-variable merge that stays in the class, sound "
         "and symmetric key equality; the class is threaded through all 17 invariants) - and with NO premise left for markers over ==/!= "
-        "comparisons of string variables with plain values (Proofs/StringClass.v, via the C16 algebra and SingleMarker.__init__ on the "
+        "comparisons of string variables and of 'extra' with plain values (Proofs/StringClass.v, ExtraClass.v, via the C16 algebra and SingleMarker.__init__ on the "
         "rebuilt text). Tie: the model's own simplifier must produce the implementation's marker text byte for byte and its truth table "
         "on the environment grid (500 pairs per quick run); truth tables of the implementation's results are the oracle.",
    design="8/C07",
-   note=BASE_NOTE + "Partial: that version-variable and 'extra' clauses form such a class is not proved (D35 shows substring clauses do not). "
+   note=BASE_NOTE + "Partial: that version-variable clauses form such a class is not proved (D35 shows substring clauses do not). "
         "Known finding D35 (pinned by the suite).",
    technique="Coq proof (fuel induction over a 20-function mutual fixpoint) + byte-level correspondence of the model's simplifier + truth-table oracle"),
  "C08": dict(
